@@ -338,5 +338,97 @@ theorem tieA_step_new_channel (snr : Int) (i f0 f1 f2 r : Nat) : StepTie snr (0x
   · simp only [if_true]
     exact ⟨gs.uplink.pending, g, by rw [hrel.full]; rfl, hrel.pending, hrel.cfg, hq⟩
 
+/-! ## non-vacuity -/
+
+/-- a DevStatusReq with SNR −3 on an empty queue: `DevStatusAns(255, 0x3D)` is queued; a second one after 13
+queued bytes does not fit and raises the latch -/
+example :
+    (@Gen.SessionMacs.Session.handle_downlink_macs RegionState modelOps ⟨⟨[], false⟩, false, ⟨⟨1⟩⟩, ⟨⟨2⟩⟩, ⟨3⟩, 0, none, 0⟩
+        TieA.Rx.exCfg (RegionState.init .EU868) [some (decCmd (6, []))] (-3) false).map (fun o => (o.1.uplink.pending, o.2.2.2))
+      = some ([6, 255, 0x3D], false) ∧
+    (@Gen.SessionMacs.Session.handle_downlink_macs RegionState modelOps ⟨⟨List.replicate 13 0, false⟩, false, ⟨⟨1⟩⟩, ⟨⟨2⟩⟩, ⟨3⟩, 0, none, 0⟩
+        TieA.Rx.exCfg (RegionState.init .EU868) [some (decCmd (6, []))] (-3) false).map (fun o => (o.1.uplink.pending.length, o.2.2.2))
+      = some (13, true) := by
+  constructor <;> rfl
+
+/-- a block of two LinkADRReq on EU868 (mask 0x0007, DR5, power 1): two identical `LinkADRAns(0b111)`, the data
+rate and the power are applied — the generated loop run on the model's region -/
+example :
+    (@Gen.SessionMacs.Session.handle_downlink_macs RegionState modelOps ⟨⟨[], false⟩, false, ⟨⟨1⟩⟩, ⟨⟨2⟩⟩, ⟨3⟩, 0, none, 0⟩
+        TieA.Rx.exCfg (RegionState.init .EU868)
+        [some (decCmd (3, [0x51, 0x07, 0x00, 0x00])), some (decCmd (3, [0x51, 0x07, 0x00, 0x00]))] 0 false).map
+        (fun o => (o.1.uplink.pending, o.2.1.data_rate, o.2.1.tx_power))
+      = some ([3, 7, 3, 7], DR._5, some 14) := by
+  rfl
+
+example : WfCmd (6, []) ∧ WfCmd (3, [0x51, 0x07, 0x00, 0x00]) := by
+  refine ⟨⟨rfl, by simp⟩, ⟨rfl, ?_⟩⟩
+  intro b hb
+  simp at hb
+  omega
+
 #print axioms push_tie
+#print axioms handleCmds_cons
+#print axioms tieA_step_dev_status
+#print axioms tieA_step_ignored
+#print axioms tieA_step_rx_timing
+#print axioms tieA_step_dl_channel
+#print axioms tieA_step_new_channel
 end TieA.Macs
+
+namespace C08
+open Model TieA.Macs
+
+/-- builder R — `push_answer` (session.rs), regenerated from the current source with `Uplink::add_mac_command`
+(`Gen/SessionMacs.lean`), is the model's `MacCtx.push`: nothing is queued once the `answers_full` latch is up; an
+answer that fits (queue + payload < 15) is appended as CID then payload; the first answer that does not fit raises
+the latch and leaves the queue; the owed-ACK flag is untouched; a queue of at most 15 bytes stays so; no panic. -/
+theorem tieA_push_answer (u : Gen.SessionRx.Uplink) (full : Bool) (cmd : Gen.SessionMacs.SerializableMacCommand)
+    (hlen : cmd.payload_len = cmd.payload_bytes.length) (hq : u.pending.length ≤ 15) (hpl : cmd.payload_bytes.length ≤ 15)
+    (c : MacCtx) (hp : c.pending = TieA.Rx.natsOf u.pending) (hf : c.full = full) :
+    ∃ u', Gen.SessionMacs.push_answer u full cmd = some (u', (c.push cmd.cid.toNat (TieA.Rx.natsOf cmd.payload_bytes)).full) ∧
+      (c.push cmd.cid.toNat (TieA.Rx.natsOf cmd.payload_bytes)).pending = TieA.Rx.natsOf u'.pending ∧ u'.confirmed = u.confirmed ∧
+      u'.pending.length ≤ 15 ∧
+      (c.push cmd.cid.toNat (TieA.Rx.natsOf cmd.payload_bytes)).cfg = c.cfg ∧
+      (c.push cmd.cid.toNat (TieA.Rx.natsOf cmd.payload_bytes)).region = c.region :=
+  push_tie u full cmd hlen hq hpl c hp hf
+
+/-
+FULL STATEMENT (not reached in the time box — missing: the RXParamSetupReq arm, the LinkADRReq block arm with the
+`for` loop of identical answers, and the induction over the command list that composes the arms):
+
+theorem tieA_handle_downlink_macs (snr : Int) (cmds : List (Nat × List Nat)) (hw : ∀ x ∈ cmds, WfCmd x)
+    (gs : Gen.SessionRx.Session) (g : Gen.SessionRx.Configuration) (rs : RegionState) (full : Bool)
+    (hq : gs.uplink.pending.length ≤ 15) (hn : cmds.length < 2147483647) :
+    match handleCmds snr cmds { cfg := cfgOf g, region := rs, pending := natsOf gs.uplink.pending, full := full } (channelMaskGet rs) false 0 with
+    | .error _ => Gen.SessionMacs.Session.handle_downlink_macs gs g rs (cmds.map (some ∘ decCmd)) snr full = none
+    | .ok c => ∃ pend' g', Gen.SessionMacs.Session.handle_downlink_macs gs g rs (cmds.map (some ∘ decCmd)) snr full
+          = some ({ gs with uplink := { gs.uplink with pending := pend' } }, g', c.region, c.full)
+        ∧ natsOf pend' = c.pending ∧ cfgOf g' = c.cfg
+-/
+
+/-- builder R — `Session::handle_downlink_macs`, PARTIAL: one iteration of the regenerated dispatch loop
+(`Gen/SessionMacs.lean`: `while let Some(cmd) = cmd_iter.next()` as a recursion over the commands the iterator
+yields, the region's methods instantiated with the model's) is the model's arm of `handleCmds` (`stepModel`;
+`handleCmds_cons`: on a well-formed command that is not a LinkADRReq, `handleCmds` is that arm followed by the
+rest with the LinkADR block state untouched) for DevStatusReq (battery 255, the 6-bit margin), RXTimingSetupReq
+(`rx1_delay` from the low nibble), NewChannelReq and DlChannelReq (ignored on fixed plans; the region's handler,
+the two answer bits in the order frequency / range resp. frequency / uplink-exists), and the commands the device
+ignores (LinkCheckAns, DutyCycleReq, TXParamSetupReq, DeviceTimeAns): same answer queue and latch, same
+configuration and region, the LinkADR block state (working mask, counter, RFU flag) and every other field of the
+session untouched, a panic on one side iff on the other. -/
+theorem tieA_handle_downlink_macs_partial (snr : Int) :
+    (∀ (x : Nat × List Nat) (rest : List (Nat × List Nat)) (c : MacCtx) (mask : Mask) (rfu : Bool) (n : Nat), WfCmd x → x.1 ≠ 3 →
+      handleCmds snr (x :: rest) c mask rfu n = (stepModel snr x c).bind fun c' => handleCmds snr rest c' mask rfu n) ∧
+    (∀ p, StepTie snr (0x06, p)) ∧
+    (∀ d, StepTie snr (0x08, [d])) ∧
+    (∀ i f0 f1 f2 r, StepTie snr (0x07, [i, f0, f1, f2, r])) ∧
+    (∀ i f0 f1 f2, StepTie snr (0x0A, [i, f0, f1, f2])) ∧
+    (∀ cid p, cid = 2 ∨ cid = 4 ∨ cid = 9 ∨ cid = 13 → StepTie snr (cid, p)) :=
+  ⟨fun x rest c mask rfu n hx h3 => handleCmds_cons snr x rest c mask rfu n hx h3,
+   tieA_step_dev_status snr, tieA_step_rx_timing snr, tieA_step_new_channel snr, tieA_step_dl_channel snr,
+   fun cid p h => tieA_step_ignored snr cid p h⟩
+
+#print axioms tieA_push_answer
+#print axioms tieA_handle_downlink_macs_partial
+end C08
